@@ -7,16 +7,19 @@ import io
 import zlib
 
 STYLES = ['canon', 'lf', 'nospace', 'xspace', 'lower', 'upper', 'fold', 'dup',
-          'empty', 'obstext', 'junkline']
+          'empty', 'obstext', 'junkline', 'biglf']
 FRAMINGS = ['cl', 'cl0', 'chunked1', 'chunked_ext', 'chunked_lf', 'close',
             'overrun', 'n204', 'n304', 'n304cl', 'headcl', 'headte', 'te_cl',
-            'http10', 'connclose', 'badcl', 'n404']
-BODIES = ['text', 'empty', 'binary', 'gzip', 'deflate', 'rawdeflate']
+            'http10', 'connclose', 'badcl', 'n404', 'n205chunked', 'n205cl']
+BODIES = ['text', 'empty', 'binary', 'gzip', 'deflate', 'rawdeflate', 'mime']
 
 BODY_BYTES = {
     'text': b'hello world',
     'empty': b'',
     'binary': b'\x00\xff\r\n\r\n0\r\n\r\nHTTP/1.1 200 OK\r\n\x85',
+    # a stored message: header-looking lines and blank lines inside the body, while the
+    # response itself carries no Content-Type
+    'mime': b'Subject: x\r\nContent-Type: application/x-inner\r\n\r\ninner body\r\n\r\ntail',
 }
 
 
@@ -47,8 +50,11 @@ def body_of(kind):
 
 
 def fmt_headers(style, status_line, fields):
-    eol = b'\n' if style == 'lf' else b'\r\n'
+    eol = b'\n' if style in ('lf', 'biglf') else b'\r\n'
     fields = list(fields)
+    if style == 'biglf':
+        # header block larger than 4 KiB with LF-only line ends
+        fields += [('X-Pad-%02d' % i, 'p' * 70) for i in range(64)]
     if style == 'fold':
         fields.append(('X-Fold', 'a' + eol.decode() + '  b'))
     if style == 'dup':
@@ -99,7 +105,7 @@ def make(style, framing, body):
     payload = wire
     expect_body = decoded
     surplus = b''
-    eol = b'\n' if style == 'lf' else b'\r\n'
+    eol = b'\n' if style in ('lf', 'biglf') else b'\r\n'
     if framing == 'cl':
         fields.append(('Content-Length', str(len(wire))))
     elif framing == 'cl0':
@@ -153,6 +159,14 @@ def make(style, framing, body):
         fields.append(('Content-Length', str(len(wire))))
         fields.append(('Connection', 'close'))
         close = True
+    elif framing == 'n205chunked':
+        # RFC 7231 6.3.6 allows a 205 to be framed as an empty chunked body
+        status, reason = 205, 'Reset Content'
+        fields = [('Server', 'x'), ('Transfer-Encoding', 'chunked')]
+        payload, expect_body = b'0\r\n\r\n', b''
+    elif framing == 'n205cl':
+        status, reason = 205, 'Reset Content'
+        fields.append(('Content-Length', str(len(wire))))
     elif framing == 'n404':
         status, reason = 404, 'Not Found'
         fields.append(('Content-Length', str(len(wire))))
